@@ -461,7 +461,9 @@ class ReprMethod(MethodDescriptor):
                 obj_parent_name = (
                     "self" if obj.__self__ is self else object_repr(obj.__self__)
                 )
-                return f"<bound method {obj.__name__} of {obj_parent_name}>"
+                # (methods of callables without a name: as the built-in repr)
+                obj_name = getattr(obj, "__name__", "?")
+                return f"<bound method {obj_name} of {obj_parent_name}>"
             if hasattr(obj, "__repr__"):
                 try:
                     return obj.__repr__(  # pylint: disable=unnecessary-dunder-call
